@@ -152,7 +152,7 @@ def _n_strings(n_letters, max_len):
     return sum(n_letters ** l for l in range(max_len + 1))
 
 
-N_BUNDLES = 32      # the pool recycles workers after 40 tasks; <= 40 shards keeps every worker below that
+N_BUNDLES = 32      # shards of similar cost (every shard runs in a fresh forked process)
 
 
 def sub_shards(tier, seed):
